@@ -44,8 +44,8 @@ def cases(tier, seed):
     for i in range(n):
         m, e, b = combos[i % len(combos)]
         tm = None
-        if i % 4 == 1 and m >= 5:
-            tm = [1, 2, 3][(i // 4) % 3]      # everything is observed from a non-main thread that narrowed its own mask
+        if i % 4 == 1 and m >= 2:
+            tm = min([1, 2, 3][(i // 4) % 3], m - 1)      # everything is observed from a non-main thread that narrowed its own mask
         cpus = max(1, min(tm or m, 16, int(e) if e is not None else 16))
         rng2 = harness.rng_for(seed, ID, "case", i)
         rng_run = sorted({1, -1, 3, rng2.choice([2, 4, cpus, cpus + 1, 2 * cpus]), rng2.choice([-2, -cpus, -cpus - 1, -2 * cpus])} - {0})
